@@ -60,7 +60,12 @@ func (it *interp) note(format string, args ...any) {
 
 func (it *interp) atom(name string) bool {
 	it.used[name] = true
-	return it.atoms[name]
+	v, ok := it.atoms[name]
+	if !ok && it.free != nil && len(it.free) < 4 {
+		// a predicate the caller did not list: enumerate it as well
+		it.free[name] = true
+	}
+	return v
 }
 
 // sentinelName maps an error expression to the atom that stands for
@@ -220,6 +225,10 @@ func (it *interp) evalBool(e ast.Expr) (bool, bool) {
 			if len(t.Args) == 1 && it.isErrExpr(t.Args[0]) {
 				a, b, c := it.atom("eof"), it.atom("abort"), it.atom("ctx")
 				return a || b || c, true
+			}
+		case "sync/atomic.(*Bool).Load":
+			if ap, ok := pathOf(info, recvExpr(t)); ok && len(ap.Fields) > 0 {
+				return it.atom("flag:" + ap.Fields[len(ap.Fields)-1].Name()), true
 			}
 		case "ers.Ok":
 			if len(t.Args) == 1 && it.isErrExpr(t.Args[0]) {
